@@ -199,7 +199,7 @@ class Check:
             # audit (only meaningful when the build succeeded)
             if rc == 0:
                 self._audit(modules)
-            self._grep_forbidden()
+            self._grep_forbidden(modules)
             if self.tier == "thorough" and rc == 0 and os.environ.get("VERIF_NO_LEANCHECKER") != "1":
                 cmd = ["lake", "env", "leanchecker", *modules]
                 self.checker_cmds.append("cd lean && " + " ".join(cmd))
@@ -241,16 +241,33 @@ class Check:
             if not ok:
                 self.broken.append({"what": f"theorem {name}", "detail": f"axioms {axl}"})
 
-    def _grep_forbidden(self):
+    def _closure(self, roots):
+        """local Lean files reachable from `roots` through `import` lines"""
+        seen, todo = set(), list(roots)
+        while todo:
+            m = todo.pop()
+            if m in seen:
+                continue
+            f = LEAN / (m.replace(".", "/") + ".lean")
+            if not f.exists():
+                continue
+            seen.add(m)
+            for im in re.findall(r"^import\s+(\S+)", f.read_text(), re.M):
+                if im.split(".")[0] in ("GeffModel", "GeffProofs", "GeffProps", "Gen", "Drivers"):
+                    todo.append(im)
+        return sorted(seen)
+
+    def _grep_forbidden(self, modules=None):
         hits = []
-        for d in ("GeffModel", "GeffProofs", "GeffProps", "Gen", "Drivers"):
-            for f in sorted((LEAN / d).glob("*.lean")):
-                txt = f.read_text()
-                # strip comments
-                txt2 = re.sub(r"/-.*?-/", lambda m: "\n" * m.group(0).count("\n"), txt, flags=re.S)
-                txt2 = re.sub(r"--.*", "", txt2)
-                for m in FORBIDDEN.finditer(txt2):
-                    hits.append(f"{f.relative_to(LEAN)}: {m.group(0).strip()}")
+        mods = self._closure(list(modules or []) + [f"GeffProps.{self.prop}", f"Drivers.{self.prop}"])
+        self.extra["lean_modules"] = mods
+        for m in mods:
+            f = LEAN / (m.replace(".", "/") + ".lean")
+            txt = f.read_text()
+            txt2 = re.sub(r"/-.*?-/", lambda mm: "\n" * mm.group(0).count("\n"), txt, flags=re.S)
+            txt2 = re.sub(r"--.*", "", txt2)
+            for mm in FORBIDDEN.finditer(txt2):
+                hits.append(f"{f.relative_to(LEAN)}: {mm.group(0).strip()}")
         self.extra["forbidden_token_hits"] = hits
         if hits:
             self.broken.append({"what": "forbidden token", "detail": "; ".join(hits[:10])})
@@ -354,10 +371,14 @@ class Check:
 
 
 def load_known():
+    """known_findings.json (+ known_findings.d/*.json while properties are being built)."""
+    out = []
     p = VERIF / "known_findings.json"
-    if not p.exists():
-        return []
-    return json.loads(p.read_text())["findings"]
+    if p.exists():
+        out += json.loads(p.read_text())["findings"]
+    for q in sorted((VERIF / "known_findings.d").glob("*.json")):
+        out += json.loads(q.read_text())["findings"]
+    return out
 
 
 def pmap(func, items, procs: int | None = None, chunksize: int = 16):
